@@ -335,12 +335,14 @@ PROPS = {
             {"test": "TestC02FilterEnum", "kind": "enum", "shards": 2},
             {"test": "TestC02Filter", "checks": 10000},
             {"test": "TestC02PartialEnum", "kind": "enum"},
+            {"test": "TestC02SetAutoescape", "kind": "plain"},
         ],
         "thorough": [
             {"test": "TestC02Program", "checks": 2400000, "shards": 16},
             {"test": "TestC02FilterEnum", "kind": "enum", "shards": 4},
             {"test": "TestC02Filter", "checks": 200000, "shards": 2},
             {"test": "TestC02PartialEnum", "kind": "enum"},
+            {"test": "TestC02SetAutoescape", "kind": "plain"},
         ],
         "assumptions": [
             "opt-outs left out by construction: safe, truncatechars_html, truncatewords_html, autoescape off, Go-side AsSafeValue; lorem p (writes its own <p> tags) - except in C02.partial, where safe / a safe-marked value is written on a harmless part next to tainted text",
